@@ -112,3 +112,83 @@ def case(cfg, values):
 
 def spec(cfg, i, path):
     return path.outcome == 'ret' and path.value == []
+
+
+# ------------------------------------------------------------------ symmetric relationships, the object itself included
+BOUND_SYM = 'spouse = Optional(Person, reverse=spouse) and friends = Set(Person, reverse=friends) over 3 persons; every sequence of <= 3 operations out of 16 (the object itself among the operands); objects preloaded or not'
+_S = None
+
+
+def sym_model():
+    global _S
+    if _S is None:
+        db = orm.Database('sqlite', ':memory:')
+
+        class Person(db.Entity):
+            id = orm.PrimaryKey(int)
+            spouse = orm.Optional('Person', reverse='spouse')
+            friends = orm.Set('Person', reverse='friends')
+        db.generate_mapping(create_tables=True)
+        _S = types.SimpleNamespace(db=db, Person=Person)
+    return _S
+
+
+SYM_OPS = [('spouse', a, b) for a in (1, 2, 3) for b in (1, 2, None) if not (a == 3 and b is None)] + [('friend', 1, 1), ('friend', 1, 2), ('friend', 2, 3), ('unfriend', 1, 1), ('unfriend', 2, 1), ('unfriend', 3, 2), ('friends=', 1, (1, 3)), ('friends=', 2, ())]
+
+
+def sym_configs(tier):
+    import itertools
+    return [dict(first=repr(op), preload=pl) for op in SYM_OPS for pl in (True, False)]
+
+
+def sym_case(cfg, values):
+    import itertools
+    def call():
+        M = sym_model(); P = M.Person; bad = []
+        first = next(o for o in SYM_OPS if repr(o) == cfg['first'])
+        seqs = [(first,)] + [(first, b) for b in SYM_OPS] + [(first, b, c) for b in SYM_OPS[::2] for c in SYM_OPS[1::3]]
+        for seq in seqs:
+            _reset()
+            with orm.db_session:
+                M.db.execute('delete from Person_friends') if False else None
+                for t in M.db.provider.pool.con.execute("select name from sqlite_master where type='table'").fetchall():
+                    M.db.execute('delete from "%s"' % t[0])
+                M.db.execute('insert into Person(id, spouse) values (1, null), (2, 3), (3, 2)')
+                link = [t[0] for t in M.db.provider.pool.con.execute("select name from sqlite_master where type='table' and name <> 'Person'").fetchall()][0]
+                cols = [r[1] for r in M.db.provider.pool.con.execute('PRAGMA table_info("%s")' % link).fetchall()]
+                M.db.execute('insert into "%s"(%s, %s) values (2, 3), (3, 2)' % (link, cols[0], cols[1]))
+            spouse = {1: None, 2: 3, 3: 2}; friends = {1: set(), 2: {3}, 3: {2}}
+            try:
+                with orm.db_session:
+                    if cfg['preload']:
+                        for p in P.select(): p.spouse, list(p.friends)
+                    for kind, a, b in seq:
+                        if kind == 'spouse':
+                            P[a].spouse = None if b is None else P[b]
+                            old = spouse[a]
+                            if old is not None and old != a: spouse[old] = None
+                            if b is not None:
+                                ob = spouse[b]
+                                if ob is not None and ob != b: spouse[ob] = None
+                                spouse[b] = a
+                            spouse[a] = b
+                        elif kind == 'friend': P[a].friends.add(P[b]); friends[a].add(b); friends[b].add(a)
+                        elif kind == 'unfriend': P[a].friends.remove(P[b]); friends[a].discard(b); friends[b].discard(a)
+                        else:
+                            P[a].friends = [P[x] for x in b]
+                            for x in list(friends[a]): friends[x].discard(a)
+                            friends[a] = set(b)
+                            for x in b: friends[x].add(a)
+                    got_s = {p.id: getattr(p.spouse, 'id', None) for p in P.select()}; got_f = {p.id: {x.id for x in p.friends} for p in P.select()}
+                    if got_s != spouse: bad.append((' ; '.join(map(repr, seq)), 'spouses in the session: %r' % got_s, 'links made: %r' % spouse))
+                    if got_f != friends: bad.append((' ; '.join(map(repr, seq)), 'friends in the session: %r' % got_f, 'links made: %r' % friends))
+                with orm.db_session:
+                    got_s = {p.id: getattr(p.spouse, 'id', None) for p in P.select()}; got_f = {p.id: {x.id for x in p.friends} for p in P.select()}
+                    if got_s != spouse or got_f != friends: bad.append((' ; '.join(map(repr, seq)), 'after commit: %r %r' % (got_s, got_f), 'links made: %r %r' % (spouse, friends)))
+            except Exception as e:
+                bad.append((' ; '.join(map(repr, seq)), 'raises %s: %s' % (type(e).__name__, str(e)[:100])))
+            finally:
+                _reset()
+            if len(bad) >= 3: break
+        return bad[:3]
+    return Case(call, {}, [], lambda r: _reset(), lambda r: _reset())
